@@ -210,7 +210,7 @@ impl Prop for C16 {
   }
   fn legs(&self, _tier: Tier) -> Vec<Leg<Case>> {
     vec![
-      Leg { name: "random program pairs", source: Cases::Generated(Box::new(strategy), 60_000, 2_000_000) },
+      Leg { name: "random program pairs", source: Cases::Generated(Box::new(strategy), 300_000, 4_000_000) },
       Leg {
         name: "all programs of depth<=2 over 5 pieces (exhaustive)",
         source: Cases::Enumerated(Box::new(|tier| {
